@@ -14,7 +14,8 @@
 (***************************************************************************)
 EXTENDS VoterChoiceOps, TLC, Json
 
-CONSTANTS Trees, Ns, MaxMsgs, CasesPerBehaviour
+CONSTANTS Trees, Ns, MaxMsgs, CasesPerBehaviour,
+          MHeads, MChanges   \* model checking: heads / pending-change numbers tried
 
 VARIABLES cs, hist, done
 vars == <<cs, hist, done>>
@@ -36,10 +37,12 @@ VVerdict(c) ==
    tolerant |-> VCTolerant(c.n, pv) /\ VCTolerant(c.n, pc)]
 
 Stages == {"prevote", "precommit"}
-Universe(n, t) == {[id |-> i, stage |-> s, b |-> b, sig |-> g, num |-> u] :
-                     i \in 1..(n + 1), s \in Stages, b \in 0..Len(t), g \in {"ok", "bad"}, u \in {"ok", "wrong"}}
+(* one defect per message is enough: (sig, num) is never ("bad", "wrong") *)
+Universe(n, t) == {[id |-> i, stage |-> s, b |-> b, sig |-> g[1], num |-> g[2]] :
+                     i \in 1..(n + 1), s \in Stages, b \in 0..Len(t),
+                     g \in {<<"ok", "ok">>, <<"bad", "ok">>, <<"ok", "wrong">>}}
 
-Init == /\ \E t \in Trees, n \in Ns : \E h \in VFBlocks(t), ch \in 0..2 :
+Init == /\ \E t \in Trees, n \in Ns : \E h \in MHeads \cap VFBlocks(t), ch \in MChanges :
              cs = [n |-> n, t |-> t, head |-> h, ms |-> {}, change |-> ch]
         /\ hist = <<>> /\ done = FALSE
 AddMsg(m) == /\ Cardinality(cs.ms) < MaxMsgs /\ m \notin cs.ms
